@@ -342,10 +342,79 @@ func ruleR16ac(c *Ctx) {
 		persisted = 16
 	)
 	nFns := 0
+	// notification closures: a function literal that does nothing but announce (it calls the monitor) and is handed to
+	// a function of the package as a parameter (`runMetadataCommand(…, notify func())`) is decided where that
+	// parameter is called
+	notifyParams := map[*ssa.Function]map[*ssa.Parameter]*types.Func{}
+	viaParam := map[*ssa.Function]bool{}
 	for _, fn := range m.fns {
+		if fn.Parent() == nil {
+			continue
+		}
+		var mm *types.Func
+		allCalls(fn, func(ci ssa.CallInstruction) {
+			if x := m.monitorCall(ci); x != nil {
+				mm = x
+			}
+		})
+		if mm == nil {
+			continue
+		}
+		all, any := true, false
+		for _, b := range fn.Parent().Blocks {
+			for _, ins := range b.Instrs {
+				mc, ok := ins.(*ssa.MakeClosure)
+				if !ok || mc.Fn != ssa.Value(fn) {
+					continue
+				}
+				for _, r := range *mc.Referrers() {
+					call, ok := r.(ssa.CallInstruction)
+					g := (*ssa.Function)(nil)
+					if ok {
+						g = staticCallee(call)
+					}
+					bound := false
+					if g != nil && fnPkgPath(origin(g)) == pkgCommand && len(g.Blocks) > 0 {
+						for i, a := range call.Common().Args {
+							if a == ssa.Value(mc) && i < len(g.Params) {
+								if notifyParams[g] == nil {
+									notifyParams[g] = map[*ssa.Parameter]*types.Func{}
+								}
+								notifyParams[g][g.Params[i]] = mm
+								bound, any = true, true
+							}
+						}
+					}
+					if !bound {
+						if _, isDbg := r.(*ssa.DebugRef); !isDbg {
+							all = false
+						}
+					}
+				}
+			}
+		}
+		if all && any {
+			viaParam[fn] = true
+		}
+	}
+	monitorCallIn := func(fn *ssa.Function, ci ssa.CallInstruction) *types.Func {
+		if mm := m.monitorCall(ci); mm != nil {
+			return mm
+		}
+		if np := notifyParams[fn]; np != nil && !ci.Common().IsInvoke() {
+			if p, ok := ci.Common().Value.(*ssa.Parameter); ok {
+				return np[p]
+			}
+		}
+		return nil
+	}
+	for _, fn := range m.fns {
+		if viaParam[fn] {
+			continue
+		}
 		hasMon := false
 		allCalls(fn, func(ci ssa.CallInstruction) {
-			if m.monitorCall(ci) != nil {
+			if monitorCallIn(fn, ci) != nil {
 				hasMon = true
 			}
 		})
@@ -379,7 +448,7 @@ func ruleR16ac(c *Ctx) {
 		pr := &PathRule{
 			Step: func(pc *PathCtx, s uint64, ins ssa.Instruction) uint64 {
 				if ci, ok := ins.(ssa.CallInstruction); ok {
-					if mm := m.monitorCall(ci); mm != nil {
+					if mm := monitorCallIn(fn, ci); mm != nil {
 						k := name + ":" + mm.Name() + ":after-persistence"
 						oblA.expect(k, ci.Pos(), "reached only through the nil-error edge of the persisting call")
 						if s&okPersist == 0 {
